@@ -231,9 +231,7 @@ class C08(object):
                         sorted((a["published"] - b["published"]).items())[:3], sorted((b["published"] - a["published"]).items())[:3]), j)
                     break
                 racy = a["racy"] | b["racy"]
-                for name, vnode in prog.get("output") or []:
-                    if lang.reads(vnode) & racy:
-                        continue
+                for name, vnode in nonracy_outputs(prog, racy):
                     if not jeq(a["output"].get(name), b["output"].get(name)):
                         err = ("same_output_nonracing", "output %s = %s under schedule 0, %s under schedule %d"
                                % (name, canon(a["output"].get(name))[:80], canon(b["output"].get(name))[:80], j), j)
@@ -285,6 +283,20 @@ def terminal_racy(w):
         bwd = ref if bwd is None else L.merge_ctx(bwd, ref)
     return set(fwd.racy) | set(bwd.racy) | set(
         k for k in fwd.vals if not jeq(fwd.vals[k].value, bwd.vals[k].value if k in bwd.vals else None))
+
+
+def nonracy_outputs(prog, racy):
+    """Output entries that are not order-decided: neither read a racy variable nor an earlier
+    output that did (outputs are rendered one after the other into a rolling context)."""
+    racy = set(racy)
+    out = []
+    for name, vnode in prog.get("output") or []:
+        if lang.reads(vnode) & racy:
+            racy.add(name)
+            continue
+        racy.discard(name)
+        out.append((name, vnode))
+    return out
 
 
 def output_stale_kf(w, name, vnode):
@@ -475,9 +487,7 @@ class C09(object):
                                  % (sorted(errp - erru)[:2], sorted(erru - errp)[:2]))
             racy = terminal_racy(wp) | terminal_racy(wu)
             op_, ou_ = wp.snap.get("output") or {}, wu.snap.get("output") or {}
-            for name, vnode in wp.p.get("output") or []:
-                if lang.reads(vnode) & racy:
-                    continue        # decided by the order the terminal branches were started in
+            for name, vnode in nonracy_outputs(wp.p, racy):      # the rest is decided by start order
                 if not jeq(op_.get(name), ou_.get(name)):
                     return Violation("C09", "same_outcome", "output %s differs: with pause %s, without %s"
                                      % (name, canon(op_.get(name))[:100], canon(ou_.get(name))[:100]))
@@ -621,8 +631,11 @@ class C17(object):
     def profile(self, seed, tier):
         K = Keyed(seed)
         p = {"name": "C17", "enabled": ["C17"], "gates": dict(join_partial=False, join_in_loop=False),
-             "faults": dict(p_fail=K.choice([0.15, 0.3, 0.3, 0.5], "pf17"), poll_skip=0.05, restart=0.03),
-             "world": dict(kf_props=kf_props()), "forbid_features": ["join_partial", "join_in_loop"]}
+             # (no skipped polls: which items of an already failing with-items task still get offered
+             # depends on when the engine is polled, and the two twins must agree on that)
+             "faults": dict(p_fail=K.choice([0.15, 0.3, 0.3, 0.5], "pf17"), poll_skip=0.0, restart=0.03),
+             "world": dict(kf_props=kf_props()), "forbid_features": ["join_partial", "join_in_loop"],
+             "dispatch_all": True}
         if K.u("profile", "split17") < 0.3:
             # a share of the budget on multi-referenced tasks: the same task executed under several
             # routes, failing on one of them, is where a rerun can disturb what completed elsewhere
@@ -673,6 +686,12 @@ class C17(object):
                 sm.stats["twin_aborted"] = 1
                 return res
             sm.stats["probe_convergence_twin"] = 1
+            if wm.partial_items or wk.partial_items:
+                # a with-items task that fails stops offering items when it goes dormant or when the
+                # workflow fails elsewhere; how far it got is schedule dependent and stays as it is
+                # after a rerun of another task, so the two runs are not comparable
+                sm.stats["twin_skipped_partial_items"] = 1
+                return res
             v = self.compare(wm, wk)
             if v is not None:
                 res["outcome"] = driver.classify(v)
@@ -688,9 +707,7 @@ class C17(object):
         if wm.status == "succeeded":
             racy = terminal_racy(wm) | terminal_racy(wk)
             om, ok_ = wm.snap.get("output") or {}, wk.snap.get("output") or {}
-            for name, vnode in wm.p.get("output") or []:
-                if lang.reads(vnode) & racy:
-                    continue
+            for name, vnode in nonracy_outputs(wm.p, racy):
                 if not jeq(om.get(name), ok_.get(name)):
                     if output_stale_kf(wm, name, vnode) or output_stale_kf(wk, name, vnode):
                         return KnownFindingStop("KF-stale-inherited-value-at-merge", "C17", "converges",
